@@ -35,3 +35,17 @@ Proof.
   simpl. destruct (String.eqb f a) eqn:E; [discriminate|]. destruct Hin as [[= -> ->]|Hin]; [|auto].
   rewrite String.eqb_refl in E. discriminate.
 Qed.
+
+(** IndicatorResult::new (result.rs): at most SIZE = 4 values and 4 signals are kept - the announced lengths are min(4, count) and
+    the slices are the leading inputs, for slices of every length (the harness runs the implementation for all counts 0..8) *)
+Definition ires_new {A B} (vals : list A) (sigs : list B) : list A * list B := (firstn 4 vals, firstn 4 sigs).
+Theorem C11_result_new_shape {A B} (vals : list A) (sigs : list B) :
+  let r := ires_new vals sigs in
+  length (fst r) = Nat.min 4 (length vals) /\ length (snd r) = Nat.min 4 (length sigs) /\
+  (forall i, (i < Nat.min 4 (length vals))%nat -> nth_error (fst r) i = nth_error vals i) /\
+  (forall i, (i < Nat.min 4 (length sigs))%nat -> nth_error (snd r) i = nth_error sigs i).
+Proof.
+  cbv zeta. unfold ires_new. cbn [fst snd]. rewrite !firstn_length. repeat split; try reflexivity.
+  - intros i Hi. rewrite Yata.Base.Prelude.nth_error_firstn. destruct (Nat.ltb_spec i 4); [reflexivity|lia].
+  - intros i Hi. rewrite Yata.Base.Prelude.nth_error_firstn. destruct (Nat.ltb_spec i 4); [reflexivity|lia].
+Qed.
